@@ -321,6 +321,9 @@ def rectangular(V, tol=1e-11):
     localV = V
     (nsize, _) = localV.shape
 
+    if V.shape[0] != V.shape[1]:
+        raise ValueError("The input matrix is not square")
+
     if not np.allclose(V @ V.conj().T, np.identity(nsize), atol=tol, rtol=0):
         raise ValueError("The input matrix is not unitary")
 
@@ -515,6 +518,9 @@ def rectangular_MZ(V, tol=1e-11):
     localV = V
     (nsize, _) = localV.shape
 
+    if V.shape[0] != V.shape[1]:
+        raise ValueError("The input matrix is not square")
+
     if not np.allclose(V @ V.conj().T, np.identity(nsize), atol=tol, rtol=0):
         raise ValueError("The input matrix is not unitary")
 
@@ -620,6 +626,9 @@ def triangular(V, tol=1e-11):
     """
     localV = V
     (nsize, _) = localV.shape
+
+    if V.shape[0] != V.shape[1]:
+        raise ValueError("The input matrix is not square")
 
     if not np.allclose(V @ V.conj().T, np.identity(nsize), atol=tol, rtol=0):
         raise ValueError("The input matrix is not unitary")
